@@ -200,8 +200,14 @@ def run_property(modname: str, tier: str = "quick", write_baseline=False) -> int
     for o, rfile, suffix in violations:
         print(f"VIOLATION property={prop} replay={rfile}{suffix}")
         print(f"  obligation {o.name} [{o.kind}] path={o.path_sig} {o.detail}")
+    shown = {}
     for o in undecided:
-        print(f"UNDECIDED property={prop} obligation={o.name} path={o.path_sig} status={o.status} {o.detail[:200]}")
+        shown[o.name] = shown.get(o.name, 0) + 1
+        if shown[o.name] <= 2:
+            print(f"UNDECIDED property={prop} obligation={o.name} path={o.path_sig} status={o.status} {o.detail[:200]}")
+    for nme, cnt in shown.items():
+        if cnt > 2:
+            print(f"UNDECIDED property={prop} obligation={nme} ... {cnt - 2} more path(s)")
     for r in not_verifiable:
         print(f"UNDECIDED property={prop} function={r.qualname} not verifiable: {r.reason[:300]}")
     for r in vacuous:
